@@ -19,7 +19,7 @@ FLOORS = {"groups": 3000, "objects_unpickled": 8000, "kind:struct": 1500, "kind:
           "structs_with_2plus_dynamic_fields": 400, "pairs_sharing_checked": 4000, "pairs_shared": 1000,
           "pairs_not_shared": 1000, "writes_on_copy": 5000, "writes_on_original": 2000,
           "allocator_walk_steps": 10000, "new_objects_in_unpickled_buffer": 2000, "reads": 100000,
-          "buffers_with_holes": 500, "kindbuf:bytearray": 500, "alias_handles_checked": 1500, "kernel_calls_on_unpickled_objects": 60, "cross_process_unpickles": 16}
+          "buffers_with_holes": 500, "kindbuf:bytearray": 500, "alias_handles_checked": 1500, "kernel_calls_on_unpickled_objects": 60, "kernels_built_on_demand_by_unpickled_objects": 15, "cross_process_unpickles": 16}
 RULE = ("groups of 1-4 objects (generated importable Struct / Array-subclass types with strings, nested arrays, "
         "references; generated HybridClass families) spread over 1-3 buffers of both CPU kinds with live neighbours, "
         "freed holes and growth history; pickle.loads(pickle.dumps(group, protocol 0..5)); oracle: every object "
@@ -210,14 +210,24 @@ def run_case(w, rng):
                 ki, kit = rng.choice(cand)
                 kfn, kft = rng.choice([(fn, ft) for fn, ft in kit.t["f"] if ft["k"] == "sc"])
                 try:
-                    kctx = kit.obj._buffer.context if rng.random() < 0.6 else xo.ContextCpu()
-                    kctx._compile_kernels_info = False
-                    kctx.add_kernels(kernels=kit.cls._gen_kernels(), extra_compile_args=("-O0", "-w"), extra_link_args=())
+                    ondemand = rng.random() < 0.5
+                    if ondemand:
+                        # the class brings its kernels and every object builds them when first needed, in the context
+                        # it lives in: `obj.compile_kernels(only_if_needed=True)`; the unpickled copy does the same
+                        kname = f"{kit.t['n']}_set_{kfn}"
+                        kit.cls._kernels = {kname: kit.cls._gen_kernels()[kname]}
+                        kctx = kit.obj._buffer.context
+                        kctx._compile_kernels_info = False
+                        kit.obj.compile_kernels(only_if_needed=True)
+                    else:
+                        kctx = kit.obj._buffer.context if rng.random() < 0.6 else xo.ContextCpu()
+                        kctx._compile_kernels_info = False
+                        kctx.add_kernels(kernels=kit.cls._gen_kernels(), extra_compile_args=("-O0", "-w"), extra_link_args=())
                     v0 = kit.vg.scalar(kft["t"])
                     kctx.kernels[f"{kit.t['n']}_set_{kfn}"](obj=kit.obj, value=v0.item())
                     kit.mv = dict(kit.mv)
                     kit.mv[kfn] = v0
-                    kern = (ki, kit, kfn, kft, kctx)
+                    kern = (ki, kit, kfn, kft, kctx, ondemand)
                 except Exception as e:
                     viol(f"kernel-before-pickling-{type(e).__name__}", tb(e))
                     return
@@ -315,9 +325,13 @@ def run_case(w, rng):
         mvs_new = [it.mv for it in items]
         mvs_old = [it.mv for it in items]
         if kern is not None:
-            ki, kit, kfn, kft, kctx = kern
+            ki, kit, kfn, kft, kctx, ondemand = kern
             v1 = kit.vg.scalar(kft["t"])
             try:
+                if ondemand:
+                    new[ki].compile_kernels(only_if_needed=True)
+                    kctx = new[ki]._buffer.context
+                    w.count("kernels_built_on_demand_by_unpickled_objects")
                 kctx.kernels[f"{kit.t['n']}_set_{kfn}"](obj=new[ki], value=v1.item())
             except Exception as e:
                 viol(f"kernel-on-unpickled-object-{type(e).__name__}", tb(e))
